@@ -10,6 +10,7 @@ import Gv.Model.Gen
 import Gv.Proofs.EvalLemmas
 import Gv.Proofs.GenLemmas
 import Gv.Proofs.RootCause
+import Gv.Proofs.ErrPath
 
 namespace Gv.Props.C07
 open Gv Gv.Str Gv.Eval
@@ -102,5 +103,175 @@ open Gv.Sound in
 /-- the wrappers keep the cause: wrapping in any mode, at any path, with any loop indices and keys -/
 theorem C07_wrap_keeps_cause (w : Wrap) (idx : List Nat) (keys : List Val) (e : ErrV) :
     rootCause (wrapErr w idx keys e) = rootCause e := rootCause_wrapErr w idx keys e
+
+/-! ### Composition through nested methods: the reported location is the position of the failing call
+
+`PathCheck.pathsOK p` is a decidable check on the plans (`Gv/Model/PathCheck.lean`): every call site and `@error` action
+records, as its error path, the positions enclosing it inside its method body (target fields, list loops, map loops),
+with the wrapping mode of its method.  The plans of `Gv.Gen` pass it.  Under it, for ALL programs, methods, source
+values and fuel, an error returned by a method is `build chain root`: `chain` lists, per method on the call chain
+(outermost first), the method's wrapping mode and the positions inside its body; the positions are a walk (`Fails` /
+`Leads`, Gv/Proofs/ErrPath.lean) through the plans and the INPUT VALUE — field names are target fields of the struct
+node passed, indices are positions `< length` of the slice being converted, keys are keys of the source map being
+converted, a nested method starts at the value reached — that ends at a call that fails for the value reached (or at
+the `@error` action selected by it); `build` applies per method what `generator.wrap` emits. -/
+
+open Gv.Sound Gv.PathCheck
+
+/-- **C07_path_is_position** -/
+theorem C07_path_is_position (p : Program) (hp : pathsOK p = true) (fuel m : Nat) (v : Val) (cs : List Val) (n : Nat) (e : ErrV)
+    (h : callMethod p fuel m v cs n = .err e) :
+    ∃ chain root, Fails p m v chain root ∧ e = build chain root ∧ ((∃ fn, root = .boom fn) ∨ root = .enumUnknown) := by
+  obtain ⟨chain, root, hf, he⟩ := callMethod_position p hp fuel m v cs n e h
+  exact ⟨chain, root, hf, he, hf.root_cause⟩
+
+/-- **C07_path_using**: with `wrapErrorsUsing` (in every method), the concatenation of the arguments of all `Wrap` calls,
+outermost first, is exactly the rendered position (`Field(name)`, `Index(i)`, `Key(source key)`) of the failing call -/
+theorem C07_path_using (p : Program) (hp : pathsOK p = true) (hu : allUsing p = true) (fuel m : Nat) (v : Val)
+    (cs : List Val) (n : Nat) (e : ErrV) (h : callMethod p fuel m v cs n = .err e) :
+    ∃ chain root, Fails p m v chain root ∧ fullPath e = (chainPath chain).map RElem.render :=
+  callMethod_using_location p hp hu fuel m v cs n e h
+
+/-- **C07_path_wrapErrors**: with `wrapErrors` (in every method), the `error setting field / index` layers are, method by
+method along the call chain, the innermost element of that method's path to the failing call if that is a field or an
+index; a method whose path is empty or ends below a map key adds nothing -/
+theorem C07_path_wrapErrors (p : Program) (hp : pathsOK p = true) (hu : allWrapErrors p = true) (fuel m : Nat) (v : Val)
+    (cs : List Val) (n : Nat) (e : ErrV) (h : callMethod p fuel m v cs n = .err e) :
+    ∃ chain root, Fails p m v chain root ∧ errLayers e = chain.filterMap (fun x => lastFI x.2) :=
+  callMethod_wrapErrors_layers p hp hu fuel m v cs n e h
+
+/-- the walk is a walk through the VALUE: below a list node it continues at an existing position of the slice, … -/
+theorem C07_index_in_range (p : Program) (te : Ty) (hm hg : Bool) (elem : Conv) (l : Loc) (vs : List Val) (rp : List RElem)
+    (tl : List (WrapMode × List RElem)) (root : ErrV) (h : Leads p (.list te hm hg elem) (.slice l vs) rp tl root) :
+    ∃ i x rp', rp = .index i :: rp' ∧ vs[i]? = some x ∧ i < vs.length ∧ Leads p elem x rp' tl root := h.index_lt
+
+/-- … below a map node at a key of the source map (with the key or the value of that entry), … -/
+theorem C07_key_in_map (p : Program) (tk tv : Ty) (key val : Conv) (l : Loc) (kvs : List (Val × Val)) (rp : List RElem)
+    (tl : List (WrapMode × List RElem)) (root : ErrV) (h : Leads p (.mapc tk tv key val) (.map l kvs) rp tl root) :
+    ∃ k x rp', rp = .key k :: rp' ∧ (k, x) ∈ kvs ∧ (Leads p key k rp' tl root ∨ Leads p val x rp' tl root) := h.key_mem
+
+/-- … below a struct node at the target field of one of its field plans -/
+theorem C07_field_is_target (p : Program) (fields : FieldPlans) (u : Bool) (src : Val) (rp : List RElem)
+    (tl : List (WrapMode × List RElem)) (root : ErrV) (h : Leads p (.structc fields u) src rp tl root) :
+    ∃ fp rp', fp ∈ fields.toList ∧ rp = .field (Sound.FieldPlan.target fp) :: rp' := h.field_target
+
+/-- **C07_nested_concat**: a call of a generated / declared method fails exactly when the callee fails, and the error is
+the callee's error wrapped once more with the path of the call site: the location is the caller's path followed by the
+callee's location -/
+theorem C07_nested_concat (p : Program) (fuel : Nat) (fr : Frame) (m : Nat) (args : List CallArg) (retErr : Bool) (pkg : S)
+    (pa : List PathElem) (v old : Val) (n : Nat) (e : ErrV)
+    (h : evalConv p (fuel + 1) fr (.call (.method m) args retErr { mode := .using pkg, path := pa }) v old n = .err e) :
+    ∃ cs n1 e', callMethod p fuel m v cs n1 = .err e' ∧ e = .wrap (renderErrPath pa fr.idx fr.keys) e' ∧
+      fullPath e = renderErrPath pa fr.idx fr.keys ++ fullPath e' := by
+  obtain ⟨_, cs, n1, e', hc, he⟩ := call_method_err p fuel fr m args retErr _ v old n e h
+  refine ⟨cs, n1, e', hc, he, ?_⟩
+  rw [he]; rfl
+
+/-- the same under `wrapErrors`: the caller adds the innermost element of the call site's path if that is a field or an
+index (of the innermost enclosing loop), and nothing below a map key or at the top of its body -/
+theorem C07_nested_wrapErrors (p : Program) (fuel : Nat) (fr : Frame) (m : Nat) (args : List CallArg) (retErr : Bool)
+    (pa : List PathElem) (v old : Val) (n : Nat) (e : ErrV) (hc : Cons pa fr.idx fr.keys)
+    (h : evalConv p (fuel + 1) fr (.call (.method m) args retErr { mode := .wrapErrors, path := pa }) v old n = .err e) :
+    ∃ cs n1 e', callMethod p fuel m v cs n1 = .err e' ∧
+      e = (match (renderR pa fr.idx fr.keys).getLast? with
+           | some (.field f) => .field f e'
+           | some (.index i) => .index i e'
+           | _ => e') := by
+  obtain ⟨_, cs, n1, e', hcm, he⟩ := call_method_err p fuel fr m args retErr _ v old n e h
+  refine ⟨cs, n1, e', hcm, ?_⟩
+  rw [he, wrapErr_eq_layer _ _ _ _ _ hc]; rfl
+
+/-- explicit methods run on their arguments, update methods included: the same decomposition (for an update method the
+walk goes through its body, starting at the source argument) -/
+theorem C07_path_is_position_run (p : Program) (hp : pathsOK p = true) (m : Nat) (argVals : List Val) (fuel : Nat) (e : ErrV)
+    (h : runMethod p m argVals fuel = .err e) :
+    ∃ gm, p.methods[m]? = some gm ∧
+      ((∃ chain root, Fails p m (srcOf gm argVals) chain root ∧ e = build chain root) ∨
+       (∃ sp c rp tl root, gm.body = some (.update sp c) ∧ Leads p c (srcOf gm argVals) rp tl root ∧
+          e = build ((methodMode gm, rp) :: tl) root)) :=
+  runMethod_position p hp m argVals fuel e h
+
+/-- the generator records, at every call site and `@error` action, the mode of the method's configuration and the path
+it was given (`Gen.conv` / `noLookup` / `structFields` extend that path by `.index`, `.key`, `.field F` exactly as
+`PathCheck.okConv` expects) -/
+theorem C07_wrapOf (cx : Gen.Ctx) (path : List PathElem) :
+    (Gen.wrapOf cx path).mode = modeOf cx.cfg.common ∧ (Gen.wrapOf cx path).path = path := wrapOf_mode_path cx path
+
+/-! non-vacuity: a method converting a slice of structs through a sub-method whose field conversion calls a fallible
+function; the second element fails -/
+
+def exInner (md : WrapMode) : Conv :=
+  .structc (.cons (.mapped "V".toList ["V".toList] [false] false false
+    (.call (.custom 0) [.source] true { mode := md, path := [.field "V".toList] }) .none) .nil) false
+
+def exOuter (md : WrapMode) : Conv :=
+  .structc (.cons (.mapped "Items".toList ["Items".toList] [false] false false
+    (.list (.named "OItem".toList) true true
+      (.call (.method 1) [.source] true { mode := md, path := [.field "Items".toList, .index] })) .none) .nil) false
+
+def exMethod (name : String) (c : Settings.Common) (body : Conv) : GenMethod :=
+  { name := name.toList, source := .named "In".toList, target := .named "Out".toList, args := [], contexts := [],
+    returnError := true, updateTarget := false, explicit := true, dirty := false, originPath := [], originName := [],
+    cfg := { common := c }, body := some (.convert body) }
+
+def exAtoi : FnDef :=
+  { name := "Atoi".toList, pkgPath := [], source := some (.basic .string), target := .basic .int, args := [], contexts := [], returnError := true }
+
+def exProgram (c : Settings.Common) : Program :=
+  { conv := { env := [], common := c, outputPkg := [], customs := [exAtoi], extend := [], orc := {} },
+    methods := [exMethod "Convert" c (exOuter (modeOf c)), exMethod "ItemToOItem" c (exInner (modeOf c))],
+    sem := { failsOn := fun _ v => match v with | .basic r => r == "x".toList | _ => false } }
+
+def exUsing : Settings.Common := { wrapErrorsUsing := "w".toList }
+def exWrapErrors : Settings.Common := { wrapErrors := true }
+
+def exValue : Val :=
+  .struct [("Items".toList, .slice (.src 0) [.struct [("V".toList, .basic "1".toList)], .struct [("V".toList, .basic "x".toList)]])]
+
+example : pathsOK (exProgram exUsing) = true := by decide
+example : allUsing (exProgram exUsing) = true := by decide
+example : pathsOK (exProgram exWrapErrors) = true := by decide
+example : allWrapErrors (exProgram exWrapErrors) = true := by decide
+
+/-- the hypothesis `callMethod … = .err e` is met, and the location is `Field(Items), Index(1)` from the outer method
+followed by `Field(V)` from the inner one -/
+example : callMethod (exProgram exUsing) 12 0 exValue [] 0 =
+    .err (.wrap [("Field", .basic "Items".toList), ("Index", .basic "1".toList)] (.wrap [("Field", .basic "V".toList)] (.boom "Atoi".toList))) := by
+  unfold callMethod
+  simp [exProgram, exMethod, exOuter, exInner, exValue, exAtoi, exUsing, modeOf, evalConv, evalConv_list_make, evalFields, evalElems, walk, fieldOf, setField, normStruct,
+    Val.isAbsent, bind, StateT.bind, pure, StateT.pure, List.lookup, callMethod, argOf, List.filterMapM,
+    List.filterMapM.loop, errE, wrapErr, renderErrPath, renderErrPath.go]
+  rfl
+
+example : fullPath (.wrap [("Field", .basic "Items".toList), ("Index", .basic "1".toList)] (.wrap [("Field", .basic "V".toList)] (.boom "Atoi".toList)))
+    = [RElem.field "Items".toList, .index 1, .field "V".toList].map RElem.render := by
+  rfl
+
+/-- with `wrapErrors`: the outer method adds the index (the innermost element of `Items[1]`), the inner one the field -/
+example : callMethod (exProgram exWrapErrors) 12 0 exValue [] 0 = .err (.index 1 (.field "V".toList (.boom "Atoi".toList))) := by
+  unfold callMethod
+  simp [exProgram, exMethod, exOuter, exInner, exValue, exAtoi, exWrapErrors, modeOf, evalConv, evalConv_list_make, evalFields, evalElems, walk, fieldOf, setField, normStruct,
+    Val.isAbsent, bind, StateT.bind, pure, StateT.pure, List.lookup, callMethod, argOf, List.filterMapM,
+    List.filterMapM.loop, errE, wrapErr]
+
+example : errLayers (.index 1 (.field "V".toList (.boom "Atoi".toList))) =
+    [(WrapMode.wrapErrors, [RElem.field "Items".toList, .index 1]), (.wrapErrors, [.field "V".toList])].filterMap (fun x => lastFI x.2) := by
+  rfl
+
+/-- the frame hypothesis of `C07_nested_wrapErrors`: one loop index for the one enclosing list of the call site -/
+example : Cons [.field "Items".toList, .index] [1] [] := ⟨rfl, rfl⟩
+
+/-- the walk of that failure -/
+example : Fails (exProgram exUsing) 0 exValue
+    [(.using "w".toList, [.field "Items".toList, .index 1]), (.using "w".toList, [.field "V".toList])] (.boom "Atoi".toList) := by
+  refine .convert (gm := exMethod "Convert" exUsing (exOuter (modeOf exUsing))) (c := exOuter (modeOf exUsing)) rfl rfl ?_
+  refine .mapped (lf := some (.slice (.src 0) [.struct [("V".toList, .basic "1".toList)], .struct [("V".toList, .basic "x".toList)]]))
+    (List.mem_cons_self) ?_ (.inl rfl) ?_
+  · simp [exValue, walk, fieldOf, List.lookup]
+  refine .slice (i := 1) (x := .struct [("V".toList, .basic "x".toList)]) rfl ?_
+  refine .method (gm := exMethod "ItemToOItem" exUsing (exInner (modeOf exUsing))) (c := exInner (modeOf exUsing)) rfl rfl ?_
+  refine .mapped (lf := some (.basic "x".toList)) (List.mem_cons_self) ?_ (.inl rfl) ?_
+  · simp [walk, fieldOf, List.lookup]
+  exact .custom (d := exAtoi) (a := .basic "x".toList) rfl rfl (fun _ => rfl)
 
 end Gv.Props.C07
